@@ -13,6 +13,10 @@
 import json
 import os
 import random
+import shutil
+import signal
+import subprocess
+import time
 
 from .. import tlc
 from ..common import Verdict, workdir, run_harness, log, die_tool
@@ -156,6 +160,87 @@ def judge(v, c, res):
     return mismatch is None
 
 
+
+# ------------------------------------------------------------------ the command-line client, end to end
+def cli_cases(v, wd):
+    """`rip tasks list` against a store left behind by a dead authority must start an authority and answer."""
+    from ..common import HARNESS, REPO
+    target = os.path.join(HARNESS, "target", "cli")
+    env = dict(os.environ, CARGO_TARGET_DIR=target, CARGO_NET_OFFLINE="true")
+    p = subprocess.run(["cargo", "build", "--offline", "-q", "-p", "rip-cli", "--manifest-path", os.path.join(REPO, "Cargo.toml")],
+                       env=env, stdout=subprocess.PIPE, stderr=subprocess.STDOUT, text=True)
+    if p.returncode != 0:
+        print(p.stdout[-3000:])
+        die_tool("cargo build -p rip-cli failed")
+    rip = os.path.join(target, "debug", "rip")
+    started = []
+    for st, clients in [(s_, n) for s_ in ("none", "dead_lock", "dead_lock_meta", "dead_partial", "dead_meta", "dead_partial_meta") for n in (1, 2)]:
+        root = os.path.join(wd, f"cli-{st}-{clients}")
+        data, ws = os.path.join(root, "data"), os.path.join(root, "ws")
+        os.makedirs(os.path.join(data, "authority"))
+        os.makedirs(ws)
+        child = subprocess.Popen(["true"])
+        child.wait()
+        dead = child.pid
+        lockf, metaf = os.path.join(data, "authority", "lock.json"), os.path.join(data, "authority", "meta.json")
+        rec = json.dumps({"pid": dead, "started_at_ms": 1, "workspace_root": ws}) + "\n"
+        met = json.dumps({"endpoint": "http://127.0.0.1:9", "pid": dead, "started_at_ms": 1, "workspace_root": ws})
+        if st in ("dead_lock", "dead_lock_meta"):
+            open(lockf, "w").write(rec)
+        if st in ("dead_partial", "dead_partial_meta"):
+            open(lockf, "w").write('{"pid":')
+        if st in ("dead_lock_meta", "dead_meta", "dead_partial_meta"):
+            open(metaf, "w").write(met)
+        e = dict(os.environ, RIP_DATA_DIR=data, RIP_WORKSPACE_ROOT=ws, RUST_BACKTRACE="0")
+        t0 = time.time()
+        procs = [subprocess.Popen([rip, "tasks", "list"], env=e, stdout=subprocess.PIPE, stderr=subprocess.PIPE, text=True) for _ in range(clients)]
+        outs = []
+        for pr in procs:
+            try:
+                so, se = pr.communicate(timeout=25)
+            except subprocess.TimeoutExpired:
+                pr.kill()
+                so, se = pr.communicate()
+            outs.append((pr.returncode, so.strip()[:80], se.strip()[:240]))
+        dt = time.time() - t0
+        ok = all(rc == 0 for rc, _, _ in outs)
+        meta_now = None
+        try:
+            meta_now = json.load(open(metaf))
+        except Exception:
+            pass
+        v.add_eval({"cli": st, "clients": clients}, True)
+        case = {"engine": "cli", "start": st, "clients": clients}
+        if not ok:
+            what = (f"`rip tasks list` ({clients} at once) against a store left by a dead authority (leftover state {st}) does not get an authority: "
+                    f"{[o for o in outs if o[0] != 0][0][2][:200]}")
+            v.violation(what, case, key="D20b-cli-never-recovers-half-written-lock-next-to-dead-meta" if st == "dead_partial_meta" else None)
+        elif not meta_now or meta_now.get("pid") == dead:
+            v.violation(f"leftover state {st}: the client answered but meta.json does not name a new authority", case)
+        if meta_now and meta_now.get("pid") != dead:
+            started.append(meta_now["pid"])
+            # exactly one authority: the lock names the same process
+            try:
+                lk = json.load(open(lockf))
+                if lk.get("pid") != meta_now["pid"]:
+                    v.violation(f"leftover state {st}, {clients} client(s): lock.json names pid {lk.get('pid')}, meta.json pid {meta_now['pid']}: two authorities", case)
+            except Exception:
+                v.violation(f"leftover state {st}: an authority answers but lock.json is unreadable", case)
+            try:
+                os.kill(meta_now["pid"], signal.SIGTERM)
+            except ProcessLookupError:
+                pass
+            for _ in range(60):
+                if not os.path.exists(lockf) and not os.path.exists(metaf):
+                    break
+                time.sleep(0.05)
+            if os.path.exists(lockf) or os.path.exists(metaf):
+                v.drift({"case": f"cli-{st}", "note": "the authority did not remove its files on SIGTERM within 3 s"})
+        log(f"[cli] {st} x{clients}: {'ok' if ok else 'FAILED'} in {dt:.1f}s")
+        shutil.rmtree(root, ignore_errors=True)
+    v.cov["cli_end_to_end_cases"] = 12
+
+
 def run(tier, seed):
     v = Verdict(PROP, tier, seed)
     wd = workdir(PROP)
@@ -174,6 +259,24 @@ def run(tier, seed):
     v.cov["as_implemented_counterexample"] = bool(r.violated)
     if not r.violated:
         die_tool("as-implemented Authority model has no counterexample (vacuous?)")
+    # ---- the command-line client as a second kind of contender (design level)
+    r = tlc.run("AuthorityCli", "AuthorityCli_fixed.cfg", workers=4, timeout=900)
+    v.add_tlc(r, "AuthorityCli (2 clients + 2 servers they spawn, atomic cleanup): CSafe, AttachedToHolder, every client attaches (all leftover states but the doubly crashed one)")
+    if not r.ok:
+        log(r.out[-3000:])
+        die_tool("AuthorityCli violates its properties")
+    r = tlc.run("AuthorityCli", "AuthorityCli_orphan.cfg", workers=4, timeout=900)
+    v.add_tlc(r, "AuthorityCli with the pinned commit's stale cleanup (nothing done when lock.json is missing): clients never attach from leftover state dead_meta (fixed, 4a81439)")
+    v.cov["orphan_meta_counterexample"] = bool(r.violated)
+    if not r.violated:
+        die_tool("AuthorityCli_orphan: expected counterexample not found")
+    r = tlc.run("AuthorityCli", "AuthorityCli_wedge.cfg", workers=2, timeout=300)
+    v.add_tlc(r, "AuthorityCli from the doubly crashed leftover state (half-written lock + meta of a dead authority): the client loop never reaches corrupt cleanup")
+    if r.violated:
+        v.violation("client never attaches from dead_partial_meta (TLC)", {"engine": "tlc", "cfg": "AuthorityCli_wedge.cfg"},
+                    key="D20b-cli-never-recovers-half-written-lock-next-to-dead-meta")
+    if thorough:
+        cli_cases(v, wd)
     g = tlc.run("GenAuthority", "GenAuthority_t.cfg", workers=4, timeout=1200, heap="8g")
     v.add_tlc(g, "GenAuthority: every complete behaviour of 2 contenders from every leftover state (as implemented), with the predicted files after each step")
     if g.errors or not g.cases:
